@@ -20,8 +20,9 @@ Input lines (one answer line each; `ok n=<size of the τ-closed state set>` or `
 * `park p=send sub=<i> v=<v>` / `unpark p=send`   `execute` is held at `batcher.execute.beforeSend` (lock held,
                                              next subscriber `i`); while held the closure does not move it
 * `park p=exit sub=<i>` / `unpark p=exit sub=<i>`  forwarder `i` is held at `batcher.forwarder.exit`
-* `quiet`                                   the implementation is quiescent: some compatible state must have
-                                             no enabled hidden step
+* `quiet prompt=<i,j,…>`                    the implementation is quiescent: some compatible state must have
+                                             no enabled hidden step and no value in the hand of the forwarder of
+                                             a subscriber whose reader polls continuously
 * `stuck`                                   → `stuck n=<k> of=<size>`: states of the current set with a pending
                                              call/delivery and no enabled internal step (never rejects)
 -/
@@ -156,7 +157,16 @@ def onEvent (d : D) (l : Line) (s : Batcher.State) : Option (List Batcher.State)
     | some u => return if u.pc == .wantLock then [s] else []
     | none => return []
   | "unpark" => some [s]
-  | "quiet" => some (if (hidden d s).isEmpty then [s] else [])
+  | "quiet" =>
+    -- a reader that polls continuously cannot leave its forwarder holding a value at quiescence
+    let prompt := (l.nats? "prompt").getD []
+    let holding (i : Nat) : Bool :=
+      match s.subs[i]? with
+      | some u => match u.pc with
+        | .holding _ => true
+        | _ => false
+      | none => false
+    some (if (hidden d s).isEmpty && !(prompt.any holding) then [s] else [])
   | _ => none
 
 def pendingWork (s : Batcher.State) : Bool :=
